@@ -5,7 +5,7 @@
 From Coq Require Import ZArith List Bool Lia Ring Field.
 From IBL.lib Require Import PyInt.
 From Coq Require Import Reals QArith.
-From IBL.C18 Require Import Model Sums Proofs Conv Half Filter Rfft ModelR ProofsR Inst.
+From IBL.C18 Require Import Model Sums Proofs Conv Half Filter Rfft Bins ModelR ProofsR Inst.
 Import ListNotations.
 Open Scope Z_scope.
 
@@ -293,6 +293,72 @@ Proof. intros R rO rI radd rmul rsub ropp rdiv rinv Fth N om omi invN HN Hom Hin
   exact (bp_product R rO rI radd rmul rsub ropp rdiv rinv Fth N om omi invN HN Hom Hinv Hprim HinvN conj c1 c2 ts r u v Hcm). Qed.
 Print Assumptions C18_bp_is_product.
 
+(* dft(x, kscale=ks) for an ARBITRARY list of integer bins ks (centred / negative bins,
+   subsets, permutations, repeats): entry j is sum_n x[n] om^(n * (k_j mod N)), which is
+   the FFT coefficient at bin k_j mod N; ks = 0..N-1 gives the whole transform; for a
+   negative bin -k the power om^(n * ((-k) mod N)) is (1/om)^(n k). *)
+Theorem C18_dft_at_bins :
+  forall (R : Type) (rO rI : R) (radd rmul rsub : R -> R -> R) (ropp : R -> R)
+         (rdiv : R -> R -> R) (rinv : R -> R),
+  field_theory rO rI radd rmul rsub ropp rdiv rinv (@eq R) ->
+  forall (N : nat) (om omi invN : R),
+  (0 < N)%nat ->
+  rpow R rI rmul om N = rI ->
+  rmul om omi = rI ->
+  (forall d, (0 < d < N)%nat -> rpow R rI rmul om d <> rI) ->
+  rmul invN (rsum R rO radd N (fun _ => rI)) = rI ->
+  forall (x : list R) (ks : list Z),
+  length (dft_bins R rO rI radd rmul om N x ks) = length ks /\
+  (forall j, (j < length ks)%nat ->
+     nth j (dft_bins R rO rI radd rmul om N x ks) rO =
+       rsum R rO radd N (fun n => rmul (getr R rO x n) (rpow R rI rmul om (n * bin_of N (nth j ks 0)))) /\
+     nth j (dft_bins R rO rI radd rmul om N x ks) rO =
+       nth (bin_of N (nth j ks 0)) (dft R rO rI radd rmul om N x) rO) /\
+  dft_bins R rO rI radd rmul om N x (map Z.of_nat (seq 0 N)) = dft R rO rI radd rmul om N x /\
+  (forall n k, rpow R rI rmul om (n * bin_of N (- Z.of_nat k)) = rpow R rI rmul omi (n * k)).
+Proof.
+  intros R rO rI radd rmul rsub ropp rdiv rinv Fth N om omi invN HN Hom Hinv Hprim HinvN x ks.
+  split; [unfold dft_bins; apply map_length|]. split; [|split].
+  - intros j Hj. split.
+    + exact (dft_bins_nth R rO rI radd rmul N om x ks j Hj).
+    + exact (dft_bins_fft R rO rI radd rmul N om HN x ks j Hj).
+  - exact (dft_bins_all R rO rI radd rmul rsub ropp rdiv rinv Fth N om HN x).
+  - exact (neg_bin R rO rI radd rmul rsub ropp rdiv rinv Fth N om omi invN HN Hom Hinv Hprim HinvN).
+Qed.
+Print Assumptions C18_dft_at_bins.
+
+(* The band-pass RESPONSE VECTOR is the product of the high-pass response c1 (corners
+   b[0:2]) and the low-pass response 1 - c2 (corners b[2:4]) for arbitrary response
+   vectors — no ordering of the corners is assumed (overlapping, nested, identical
+   tapers included) — and so is its Hermitian expansion, bin by bin. *)
+Theorem C18_bp_response_is_product :
+  forall (R : Type) (rO rI : R) (radd rmul rsub : R -> R -> R) (ropp : R -> R)
+         (rdiv : R -> R -> R) (rinv : R -> R),
+  field_theory rO rI radd rmul rsub ropp rdiv rinv (@eq R) ->
+  forall (N : nat) (om omi invN : R),
+  (0 < N)%nat ->
+  rpow R rI rmul om N = rI ->
+  rmul om omi = rI ->
+  (forall d, (0 < d < N)%nat -> rpow R rI rmul om d <> rI) ->
+  rmul invN (rsum R rO radd N (fun _ => rI)) = rI ->
+  forall (conj : R -> R) (c1 c2 : list R),
+  length c1 = length c2 ->
+  (forall m, (m < length c1)%nat ->
+     nth m (bp_resp R rI rmul rsub c1 c2) rO = rmul (nth m c1 rO) (rsub rI (nth m c2 rO))) /\
+  (forall ns H1 H2, (forall a b, conj (rmul a b) = rmul (conj a) (conj b)) ->
+     fexpand rO conj c1 ns = Some H1 -> fexpand rO conj (resp_lp R rI rsub c2) ns = Some H2 ->
+     exists H, fexpand rO conj (bp_resp R rI rmul rsub c1 c2) ns = Some H /\ length H = length H1 /\
+       forall m, (m < length H1)%nat -> nth m H rO = rmul (nth m H1 rO) (nth m H2 rO)).
+Proof.
+  intros R rO rI radd rmul rsub ropp rdiv rinv Fth N om omi invN HN Hom Hinv Hprim HinvN conj c1 c2 Hlen.
+  split.
+  - intros m Hm. apply (bp_resp_nth R rO rI radd rmul rsub ropp rdiv rinv Fth); [exact Hm | now rewrite <- Hlen].
+  - intros ns H1 H2 Hcm E1 E2.
+    exact (bp_resp_expand R rO rI radd rmul rsub ropp rdiv rinv Fth N om omi invN HN Hom Hinv Hprim HinvN
+             conj c1 c2 ns H1 H2 Hcm Hlen E1 E2).
+Qed.
+Print Assumptions C18_bp_response_is_product.
+
 (* ---- fcn_cosine -------------------------------------------------------- *)
 (* Reals: for b0 < b1 the soft threshold is 0 up to b0, 1 from b1 on,
    non-decreasing everywhere and within [0, 1]. *)
@@ -384,3 +450,15 @@ Proof.
   apply (C18_fft_conv_full_rfft G g0 g1 gadd gmul gsub gopp gdiv ginv Gft 4%nat om4 omi4 inv4
            ltac:(lia) H1 H2 H3 H4 gconj ghalf C1 C2 C3 C4 H5 x w l (real_gq _) (real_gq _) Hns Hfull).
 Qed.
+
+(* overlapping tapers: the product response differs from hp + lp - 1 (1/2 * 1/2 = 1/4, not 0) *)
+Example C18_example_bp_overlap :
+  map gview (bp_resp G g1 gmul gsub [ghalf; g1] [ghalf; g0]) = [(Qmake 1 4, Qmake 0 1); (Qmake 1 1, Qmake 0 1)] /\
+  map gview (map (fun p => gsub (gadd (fst p) (gsub g1 (snd p))) g1) [(ghalf, ghalf)]) = [(Qmake 0 1, Qmake 0 1)].
+Proof. split; vm_compute; reflexivity. Qed.
+
+(* dft at centred bins on Q(i), N = 4: bins [-1; 2; 0] of x = [1, 2, 3, 4] *)
+Example C18_example_dft_bins :
+  map gview (dft_bins G g0 g1 gadd gmul om4 4 (map (fun z => gq z 0) [1; 2; 3; 4]%Z) [-1; 2; 0]%Z) =
+  [(Qmake (-2) 1, Qmake (-2) 1); (Qmake (-2) 1, Qmake 0 1); (Qmake 10 1, Qmake 0 1)].
+Proof. vm_compute. reflexivity. Qed.
